@@ -1,4 +1,5 @@
 import DDP.Impl.Abi
+import DDP.Impl.AbiLayout
 
 /-!
 # C18 — foreign C functions see the published value representation
@@ -50,5 +51,87 @@ theorem by_value_iff (t : Ty) : (∃ c, passParam t false = .byValue c) ↔ isPr
   cases h : isPrimitive t <;> simp
 
 example : (signature [(.zahl, false), (.text, false), (.zahl, true)] .text).toC "f" = "void f(ddpstring *, ddpint, ddpstring *, ddpint *)" := by decide
+
+
+section Layout
+open DDP.Generated.Abi
+
+
+/-! ## The published layout is the generated layout (over the facts regenerated from the source on every run) -/
+
+/-- every primitive has the same width, and is the same kind of scalar, in the generated code and in the header -/
+theorem prim_widths_agree :
+    goPrims.map (fun (n, t) => (n, irWidth t)) = cPrims.map (fun (n, t) => (n, cWidth t)) ∧
+    (goPrims.map fun (_, t) => irWidth t).all Option.isSome = true := by decide
+
+theorem prim_kinds_agree :
+    (goPrims.zip cPrims).all (fun ((n, g), (m, c)) => n == m &&
+      (irKind g == cKind c || (irKind g == "int" && (cKind c == "sint" || cKind c == "uint")))) = true := by decide
+
+/-- a Byte is the only unsigned integer: the generated code must zero-extend it, never sign-extend -/
+theorem byte_unsigned_in_header : (cPrims.lookup "ddpbyte").map cKind = some "uint" ∧ (cPrims.lookup "ddpint").map cKind = some "sint" := by decide
+
+/-- `ddpstring` is {pointer, 64-bit capacity} on both sides, and the code generator's field indices name `str` and `cap` -/
+theorem layout_string :
+    goStructs.lookup "ddpstring" = cClasses "ddpstring" ∧
+    (goFieldIndex.lookup "string_str_field_index").bind (cFieldNameAt "ddpstring") = some "str" ∧
+    (goFieldIndex.lookup "string_cap_field_index").bind (cFieldNameAt "ddpstring") = some "cap" := by decide
+
+/-- every published list struct is {pointer to the element type, length, capacity} — the struct `createListType` builds —
+and the code generator's `list_*_field_index` constants select `arr`, `len`, `cap` in each of them -/
+theorem layout_lists :
+    publishedLists.all (fun (name, elem) =>
+      cClasses name == goStructs.lookup "list" &&
+      cListElem name == some elem &&
+      (goFieldIndex.lookup "list_arr_field_index").bind (cFieldNameAt name) == some "arr" &&
+      (goFieldIndex.lookup "list_len_field_index").bind (cFieldNameAt name) == some "len" &&
+      (goFieldIndex.lookup "list_cap_field_index").bind (cFieldNameAt name) == some "cap") = true ∧
+    goStructs.lookup "ddpgenericlist" = goStructs.lookup "list" := by decide
+
+/-- no list struct of the header is missed by `publishedLists` -/
+theorem lists_complete :
+    (cStructs.map Prod.fst).filter (fun n => n != "ddpstring" && n != "ddpvtable" && n != "ddpany") = publishedLists.map Prod.fst := by decide
+
+/-- `ddpany` is {vtable pointer, 16-byte buffer}; the buffer is what `DDP_SMALL_ANY_BUFF_SIZE` says -/
+theorem layout_any :
+    goStructs.lookup "ddpany" = cClasses "ddpany" ∧
+    (goFieldIndex.lookup "any_vtable_ptr_index").bind (cFieldNameAt "ddpany") = some "vtable_ptr" ∧
+    goFieldIndex.lookup "any_value_index" = some 1 ∧
+    classWidth "bytes16" = some cSmallAnyBuffSize := by decide
+
+/-- the vtable the generated code emits for a type is the header's `ddpvtable` -/
+theorem layout_vtable : goStructs.lookup "vtable" = cClasses "ddpvtable" ∧
+    cFieldNames "ddpvtable" = some ["type_size", "free_func", "deep_copy_func", "equal_func"] := by decide
+
+/-- the sizes the header asserts (and the ones foreign code computes with `sizeof`) follow from the generated layout -/
+theorem sizes :
+    cSizeAsserts.all (fun (n, sz) => (goStructs.lookup n).bind structSize == some sz) = true ∧
+    (goStructs.lookup "ddpstring").bind structSize = some 16 ∧
+    (goStructs.lookup "list").bind structSize = some 24 ∧
+    (goStructs.lookup "ddpany").bind structSize = some 24 := by decide
+
+/-- `toIrParamType` (regenerated truth table) is `passParam` of the model: by value exactly for a primitive that is no Referenz -/
+theorem passing_is_generated (t : Ty) (isRef : Bool) :
+    goPassing isRef (isPrimitive t) = some (passParam t isRef).cls := by
+  cases isRef <;> cases h : isPrimitive t <;> simp [passParam, h, Pass.cls, goPassing, goParamPassing]
+
+/-- what a Referenz parameter is for the C side: the header's `…ref` typedef is a pointer to the value type itself -/
+theorem refs_point_to_values :
+    cRefs.all (fun (r, pointee) => r == pointee ++ "ref" || (r == "ddpgenericref" && pointee == "void")) = true := by decide
+
+/-- every non-Kombination type of the model has its `…ref` typedef -/
+theorem ref_typedef_exists :
+    [Ty.zahl, .komma, .byte, .wahr, .buchstabe, .text, .variable, .liste .zahl, .liste .komma, .liste .byte, .liste .wahr,
+      .liste .buchstabe, .liste .text, .liste .variable].all (fun t => cRefs.lookup (ctype t ++ "ref") == some (ctype t)) = true := by decide
+
+/-- growth of list capacity: the constants of the header (`DDP_GROW_CAPACITY`) -/
+theorem growth_constants : cBaseCapacity = 8 ∧ cGrowthFactorTenths = 15 := by decide
+
+/-- the formats foreign code prints primitives with -/
+theorem formats : cFormats.lookup "DDP_INT_FMT" = some "%lld" ∧ cFormats.lookup "DDP_BYTE_FMT" = some "%hhu" ∧
+    cFormats.lookup "DDP_FLOAT_FMT" = some "%.16g" := by decide
+
+
+end Layout
 
 end DDP.Abi
